@@ -16,39 +16,52 @@
      "doublefree-on-oom"  the exit of b_callback taken when PyObject_GC_New() fails frees the closure
                   itself and then falls into the common error label, which frees it again
      "stalebind"  user_data is not rewritten when a freed closure is reused
-     "overlap"    more_core carves one item more than fits and spills into the next block's range *)
+     "cap-after-count"  more_core limits allocate_num_pages to Cap pages *after* it has computed the
+                  number of blocks from the unlimited value: fewer bytes are mmap()ed than blocks are
+                  threaded onto the free list *)
 EXTENDS ClosuresIdeal, TLC
 CONSTANTS PageSize,   \* _pagesize
           SlotSize,   \* sizeof(union mmapped_block)
           Gap,        \* distance between the (abstract) base addresses of consecutive blocks
           Sigs,       \* signatures
+          Cap,        \* (only used by the variant "cap-after-count") page limit of one mmap() request
           Variant
 VARIABLES fl,         \* free_list, head first
           npages,     \* allocate_num_pages
-          nblocks,    \* number of mmap()ed blocks
+          nblocks,    \* number of mmap()ed chunks
+          maps,       \* maps[b] = number of bytes mmap()ed for chunk b
           bind,       \* bind[a] = [fn, sig]: closure->user_data of the closure at address a
           sig         \* sig[c] = signature of the live callback c
-vars == <<live, last, fl, npages, nblocks, bind, sig>>
-View == <<live, fl, npages, nblocks, bind, sig>>
+vars == <<live, last, fl, npages, nblocks, maps, bind, sig>>
+View == <<live, fl, npages, nblocks, maps, bind, sig>>
 
-Init == IInit /\ fl = <<>> /\ npages = 0 /\ nblocks = 0 /\ bind = Empty /\ sig = Empty
+Init == IInit /\ fl = <<>> /\ npages = 0 /\ nblocks = 0 /\ maps = <<>> /\ bind = Empty /\ sig = Empty
 
 \* ------------------------------------------------------------------ malloc_closure.h
+\* The allocator as pure operators over a record A = [fl, npages, nblocks, maps] (used by the actions
+\* below and, folded over a whole recorded session, by Trace_ClosuresImpl).
 GrowPages(n) == 1 + (n * 13) \div 10          \* 1 + (Py_ssize_t)(n * PAGE_ALLOCATION_GROWTH_RATE)
-Count(n) == (n * PageSize) \div SlotSize + (IF Variant = "overlap" THEN Gap \div SlotSize ELSE 0)
 Base(b) == b * Gap
-\* more_core(): the items of the new block are pushed in address order, so the last one is the head
-Carved(b, n) == [i \in 1..Count(n) |-> Base(b) + (Count(n) - i) * SlotSize]
-\* state of the allocator after "if (!free_list) more_core();"
-Grown == fl = <<>>
-Fl0 == IF Grown THEN Carved(nblocks + 1, GrowPages(npages)) ELSE fl
-Grow == /\ npages' = (IF Grown THEN GrowPages(npages) ELSE npages)
-        /\ nblocks' = (IF Grown THEN nblocks + 1 ELSE nblocks)
-\* cffi_closure_alloc(): item = free_list; free_list = item->next
-Item == Head(Fl0)
-AfterAlloc == IF Variant = "nopop" THEN Fl0 ELSE Tail(Fl0)
 \* cffi_closure_free(p): p->next = free_list; free_list = p
 Pushed(a, l) == IF Variant = "doublefree" THEN <<a, a>> \o l ELSE <<a>> \o l
+\* more_core(): bump allocate_num_pages; count = the number of mmapped_blocks to thread onto the
+\* free list; mmap(allocate_num_pages * _pagesize); the items are pushed in address order, so the
+\* last one becomes the head.  The bytes mapped and the blocks threaded are separate quantities.
+MoreCore(A) ==
+    LET n      == GrowPages(A.npages)
+        count  == (n * PageSize) \div SlotSize
+        np     == IF Variant = "cap-after-count" /\ n > Cap THEN Cap ELSE n
+        mapped == np * PageSize
+        b      == A.nblocks + 1
+    IN [fl |-> [i \in 1..count |-> Base(b) + (count - i) * SlotSize] \o A.fl,
+        npages |-> np, nblocks |-> b, maps |-> Append(A.maps, mapped)]
+\* cffi_closure_alloc(): if (!free_list) more_core(); item = free_list; free_list = item->next
+AllocOp(A) == LET B == IF A.fl = <<>> THEN MoreCore(A) ELSE A
+              IN [item |-> Head(B.fl), st |-> [B EXCEPT !.fl = IF Variant = "nopop" THEN @ ELSE Tail(@)]]
+FreeOp(A, a) == [A EXCEPT !.fl = Pushed(a, @)]
+
+Cur == [fl |-> fl, npages |-> npages, nblocks |-> nblocks, maps |-> maps]
+SetAlloc(A) == fl' = A.fl /\ npages' = A.npages /\ nblocks' = A.nblocks /\ maps' = A.maps
 
 Set(f, k, v) == [x \in DOMAIN f \cup {k} |-> IF x = k THEN v ELSE f[x]]
 Del(f, k) == [x \in DOMAIN f \ {k} |-> f[x]]
@@ -56,11 +69,12 @@ Del(f, k) == [x \in DOMAIN f \ {k} |-> f[x]]
 \* ------------------------------------------------------------------ operations
 Create(c, s) ==         \* ffi.callback(sig, fn): b_callback
     /\ c \notin Live
-    /\ Grow /\ fl' = AfterAlloc
-    /\ bind' = IF Variant = "stalebind" /\ Item \in DOMAIN bind THEN bind
-               ELSE Set(bind, Item, [fn |-> c, sig |-> s])
+    /\ LET r == AllocOp(Cur) IN
+         /\ SetAlloc(r.st)
+         /\ bind' = IF Variant = "stalebind" /\ r.item \in DOMAIN bind THEN bind
+                    ELSE Set(bind, r.item, [fn |-> c, sig |-> s])
+         /\ CreateE(c, r.item) /\ Ev("create", c, r.item, <<>>, <<>>, <<>>, 0, 0)
     /\ sig' = Set(sig, c, s)
-    /\ CreateE(c, Item) /\ Ev("create", c, Item, <<>>, <<>>, <<>>, 0, 0)
 
 \* b_callback fails after cffi_closure_alloc() has popped a closure.  The exits of the real code:
 \*   "gcnew"    PyObject_GC_New() returns NULL (out of memory): goto error with cd == NULL, the error
@@ -76,20 +90,20 @@ FreedAfterFail(pt, a, l) ==
     IF Variant = "doublefree-on-oom" /\ pt = "gcnew" THEN <<a, a>> \o l ELSE Pushed(a, l)
 CreateFail(pt) ==
     /\ pt \in FailPoints
-    /\ Grow /\ fl' = FreedAfterFail(pt, Item, AfterAlloc)
+    /\ LET r == AllocOp(Cur) IN SetAlloc([r.st EXCEPT !.fl = FreedAfterFail(pt, r.item, @)])
     /\ UNCHANGED <<live, last, bind, sig>>
 
 Drop(c) ==              \* cdataowninggc_dealloc
     /\ c \in Live
-    /\ fl' = Pushed(live[c], fl)
+    /\ SetAlloc(FreeOp(Cur, live[c]))
     /\ sig' = Del(sig, c)
     /\ DropE(c) /\ Ev("drop", c, 0, <<>>, <<>>, <<>>, 0, 0)
-    /\ UNCHANGED <<npages, nblocks, bind>>
+    /\ UNCHANGED bind
 
 Call(c) ==              \* through the cdata or from C: the trampoline at live[c] -> invoke_callback(user_data)
     /\ c \in Live
     /\ LET b == bind[live[c]] IN Ev("call", c, 0, <<b.fn>>, <<sig[c]>>, <<b.sig>>, 0, 0)
-    /\ CallE(c) /\ UNCHANGED <<fl, npages, nblocks, bind, sig>>
+    /\ CallE(c) /\ UNCHANGED <<fl, npages, nblocks, maps, bind, sig>>
 
 Next == \/ \E c \in Cbs, s \in Sigs : Create(c, s)
         \/ \E pt \in FailPoints : CreateFail(pt)
@@ -106,8 +120,9 @@ LiveAddrs == {live[c] : c \in Live}
 FreeDisjointLive == Range(fl) \cap LiveAddrs = {}                      \* free /\ live = {}
 FreeNoDup == Cardinality(Range(fl)) = Len(fl)
 BoundOwn == \A c \in Live : bind[live[c]] = [fn |-> c, sig |-> sig[c]]   \* bound to its own function
-InsideBlocks == \A a \in Range(fl) \cup LiveAddrs :                    \* every item lies inside its block
-                  \E b \in 1..nblocks : a >= Base(b) /\ a + SlotSize <= Base(b) + Gap
+\* every block handed out or on the free list lies inside the bytes mmap()ed for its chunk
+InsideMapping == \A a \in Range(fl) \cup LiveAddrs :
+                   \E b \in 1..nblocks : a >= Base(b) /\ a + SlotSize <= Base(b) + maps[b]
 \* LIFO reuse: the closure freed last is the one handed out next
 Lifo == [][\A c \in Cbs : (last'.ev = "drop" /\ last'.c = c /\ c \in Live) => Head(fl') = live[c]]_vars
 =============================================================================
